@@ -35,6 +35,8 @@ pub struct DPlan {
     pub ci: usize,
     pub cj: usize,
     pub maskt: u32, // mask = -(1 << maskt)
+    pub pa: usize,  // limbs of the prepared left operand (may differ from the source: truncation / zero extension)
+    pub pb: usize,
     pub am: Vec<Col>,
     pub bm: Vec<Col>,
     pub ds: Vec<i64>,
@@ -159,6 +161,8 @@ pub fn make_dplan(c: &Value, seed: u64) -> DPlan {
         ci,
         cj,
         maskt: gu(c, "maskt", 0) as u32,
+        pa: gu(c, "pa", asz as u64) as usize,
+        pb: gu(c, "pb", bsz as u64) as usize,
         am,
         bm,
         ds,
@@ -301,28 +305,28 @@ macro_rules! dft_backend {
                         }
                     }
                     "cnv_apply_dft" | "cnv_pairwise_apply_dft" | "cnv_apply_dft_self" => {
-                        let mut left = m.cnv_pvec_left_alloc(p.acols, p.asz);
-                        let mut right = if op == "cnv_apply_dft_self" { m.cnv_pvec_right_alloc(p.acols, p.asz) } else { m.cnv_pvec_right_alloc(p.bcols, p.bsz) };
+                        let mut left = m.cnv_pvec_left_alloc(p.acols, p.pa);
+                        let mut right = if op == "cnv_apply_dft_self" { m.cnv_pvec_right_alloc(p.acols, p.pa) } else { m.cnv_pvec_right_alloc(p.bcols, p.pb) };
                         if op == "cnv_apply_dft_self" {
-                            scr_call::<BE, _>(ex, m.cnv_prepare_self_tmp_bytes(p.asz, p.asz), f ^ 13, "cnv_prepare_self", &mut scr_log, |sc| {
+                            scr_call::<BE, _>(ex, m.cnv_prepare_self_tmp_bytes(p.pa, p.asz), f ^ 13, "cnv_prepare_self", &mut scr_log, |sc| {
                                 m.cnv_prepare_self(&mut left, &mut right, &a.vz(), mask, sc)
                             });
                         } else {
-                            scr_call::<BE, _>(ex, m.cnv_prepare_left_tmp_bytes(p.asz, p.asz), f ^ 13, "cnv_prepare_left", &mut scr_log, |sc| {
+                            scr_call::<BE, _>(ex, m.cnv_prepare_left_tmp_bytes(p.pa, p.asz), f ^ 13, "cnv_prepare_left", &mut scr_log, |sc| {
                                 m.cnv_prepare_left(&mut left, &a.vz(), mask, sc)
                             });
-                            scr_call::<BE, _>(ex, m.cnv_prepare_right_tmp_bytes(p.bsz, p.bsz), f ^ 14, "cnv_prepare_right", &mut scr_log, |sc| {
+                            scr_call::<BE, _>(ex, m.cnv_prepare_right_tmp_bytes(p.pb, p.bsz), f ^ 14, "cnv_prepare_right", &mut scr_log, |sc| {
                                 m.cnv_prepare_right(&mut right, &b.vz(), mask, sc)
                             });
                         }
                         if op == "cnv_pairwise_apply_dft" {
-                            let decl = m.cnv_pairwise_apply_dft_tmp_bytes(p.off, p.rs, p.asz, p.bsz);
+                            let decl = m.cnv_pairwise_apply_dft_tmp_bytes(p.off, p.rs, p.pa, p.pb);
                             scr_call::<BE, _>(ex, decl, f ^ 15, op, &mut scr_log, |sc| {
                                 m.cnv_pairwise_apply_dft(p.off, &mut dft_mut::<BE>(&mut res), rc, &left, &right, p.ci, p.cj, sc)
                             })
                         } else {
-                            let bsz = if op == "cnv_apply_dft_self" { p.asz } else { p.bsz };
-                            let decl = m.cnv_apply_dft_tmp_bytes(p.off, p.rs, p.asz, bsz);
+                            let bsz = if op == "cnv_apply_dft_self" { p.pa } else { p.pb };
+                            let decl = m.cnv_apply_dft_tmp_bytes(p.off, p.rs, p.pa, bsz);
                             scr_call::<BE, _>(ex, decl, f ^ 15, op, &mut scr_log, |sc| {
                                 m.cnv_apply_dft(p.off, &mut dft_mut::<BE>(&mut res), rc, &left, ac, &right, if op == "cnv_apply_dft_self" { ac } else { bc }, sc)
                             })
@@ -462,7 +466,7 @@ pub fn run_dcase(mods: &mut DMods, c: &Value, seed: u64) -> Value {
     json!({
         "id": gu(c, "id", 0), "op": p.op, "n": p.n, "na": p.n, "rs": p.rs,
         "p": {"step": p.step, "off": p.off, "scale": p.scale, "rows": p.rows, "cin": p.cin, "cout": p.cout, "ms": p.ms,
-              "ci": p.ci, "cj": p.cj, "maskt": p.maskt, "rcol": p.rcol, "acol": p.acol, "bcol": p.bcol, "k": 0, "limb": 0, "part": 0, "rb": 0, "ab": 0},
+              "ci": p.ci, "cj": p.cj, "maskt": p.maskt, "pa": p.pa, "pb": p.pb, "rcol": p.rcol, "acol": p.acol, "bcol": p.bcol, "k": 0, "limb": 0, "part": 0, "rb": 0, "ab": 0},
         "shape": {"rcols": p.rcols, "rcol": p.rcol, "acols": p.acols, "acol": p.acol, "bcols": p.bcols, "bcol": p.bcol, "rextra": p.rextra},
         "ins": if agree_only { json!({}) } else { json!({"a": json!(p.am[p.acol]), "b": json!(p.bm[p.bcol]), "am": json!(p.am), "bm": json!(p.bm), "s": json!(p.ds),
                 "r": if p.uses_r { json!(p.dr) } else { json!([]) }, "m": json!(p.dm), "cst": json!(p.cst), "parts": json!([])}) },
